@@ -278,6 +278,25 @@ def decRecsReadResp (d : Bytes) (bc : Nat) : Nat → Nat → PyM (List FileRec)
 /-- ServerDecoder.__sub_function_table: diagnostic sub-function codes that have their own class -/
 def diagSubs : List Nat := [0, 1, 2, 3, 4, 10, 11, 12, 13, 14, 15, 16, 17, 18, 19, 20, 21]
 
+/-- class-name stem of the diagnostic sub-function classes (`<stem>Request` / `<stem>Response`); after
+    `decode` the decoders re-class the object by `sub_function_code`; an unknown sub-function keeps the base
+    class `DiagnosticStatus…` -/
+def diagStem (sub : Nat) : String :=
+  match sub with
+  | 0 => "ReturnQueryData" | 1 => "RestartCommunicationsOption" | 2 => "ReturnDiagnosticRegister"
+  | 3 => "ChangeAsciiInputDelimiter" | 4 => "ForceListenOnlyMode" | 10 => "ClearCounters"
+  | 11 => "ReturnBusMessageCount" | 12 => "ReturnBusCommunicationErrorCount"
+  | 13 => "ReturnBusExceptionErrorCount" | 14 => "ReturnSlaveMessageCount"
+  | 15 => "ReturnSlaveNoResponseCount" | 16 => "ReturnSlaveNAKCount" | 17 => "ReturnSlaveBusyCount"
+  | 18 => "ReturnSlaveBusCharacterOverrunCount" | 19 => "ReturnIopOverrunCount"
+  | 20 => "ClearOverrunCount" | 21 => "GetClearModbusPlus"
+  | _ => "DiagnosticStatus"
+
+def diagReqClass (sub : Nat) : String := diagStem sub ++ "Request"
+/-- (the library spells one response class `ReturnSlaveNoReponseCountResponse`) -/
+def diagRespClass (sub : Nat) : String :=
+  if sub = 15 then "ReturnSlaveNoReponseCountResponse" else diagStem sub ++ "Response"
+
 /-- `ServerDecoder.decode(message)`: lookup, `request.decode(data[1:])`.  (`ModbusException`s are caught and
     turned into `None` by the real decoder; none is raised on this path.) -/
 def decReq (msg : Bytes) : PyM Req := do
